@@ -189,3 +189,37 @@ claim(
     "file (decode errors, deletion races) are outside 'a name that cannot be resolved'.",
     "DESIGN.md section 5 C22",
 )
+
+claim(
+    "C10",
+    "TBL",
+    "static: the lexer's regex alternatives rebuilt from the AST with placeholder delimiters and parsed (re._parser), compared with the branches of _tokenize_template",
+    "Clauses: for each markup alternative (raw, doc, comment, output, tag; both rule sets) the "
+    "tokenizer branch sets the left-strip flag unconditionally from the named -? group that sits "
+    "immediately before that alternative's final closing delimiter (endraw/enddoc for raw/doc), "
+    "likewise when a comment block closes; the text rule's look-ahead carries the -? group after "
+    "every opening delimiter and the text branch right-strips iff it matched and left-strips iff "
+    "the flag is set, with no other and no partial strip operation in the lexer; the raw body is "
+    "emitted unchanged; comment/doc/inline-comment nodes write nothing; content nodes write their "
+    "token text verbatim. Necessary conditions of the property's whitespace-control and "
+    "verbatim sentences for every source and every delimiter configuration.",
+    "Not decided: regex alternation-order effects for pathological overlaps; the liquid tag's "
+    "inner tokenizer (lines are trimmed there by design).",
+    "DESIGN.md section 5 C10",
+)
+
+claim(
+    "C21",
+    "TBL+FLOW",
+    "static: guarded-pop/subscript totality rule on the tag audit; parser end-sets vs DEFAULT_INNER_TAG_MAP vs declared end tags",
+    "Totality: in TagAnalysis every list.pop() is dominated by an emptiness test, every "
+    "non-slice subscript is on a defaultdict, and nothing is raised — so the audit returns for "
+    "every token list. No false alarms / no misses: for each of the 15 registered block tags the "
+    "inner tags its parser accepts (folded from the end-sets passed to parse_block and its "
+    "is_tag/value tests, plus break/continue where the node handles the interrupts) equal "
+    "DEFAULT_INNER_TAG_MAP[name]; each declares end == 'end'+name and parses to exactly that tag; "
+    "block is declared iff the parser consumes a block.",
+    "The audit's own bookkeeping over arbitrary interleavings of block/end tags beyond these "
+    "table agreements is not decided. Token lists are those the lexer produces.",
+    "DESIGN.md section 5 C21",
+)
